@@ -27,3 +27,7 @@ def run(ctx):
     ctx.guarded(r, lambda rule: S_.r1_choice_consumption(rule))
     ctx.guarded(r, S_.r2_left_right)
     ctx.guarded(r, S_.r_renaming)
+    r = ctx.rule("R8", "axis roles: the x offset split from a linear tile index goes with the tile's x corner, the image width and the first vector position; the y offset with corner[1], the height, the second position", 1)
+    ctx.guarded(r, R.r_axis_roles, R.VOX, "voxel")
+    r = ctx.rule("R9", "render_tile_recurse stops the descent through a column of root tiles (`false`) only for a filled tile; an empty tile keeps going, and the z loop stops on `false` only", 3)
+    ctx.guarded(r, R.r_keep_going)
